@@ -4,6 +4,7 @@
 //! C03: per-key linearizability during the migration, exact final placement after commit.
 //! C19: every RESTORE that transfers a key carries a ttl consistent with the PTTL read for it.
 
+use futures::StreamExt as _;
 use crate::broker::{node_addrs, proxy_addr, Cfg as BrokerCfg};
 use crate::cluster::{bulk_cmd, run_sim, spawn_coordinator, spawn_proxy, spawn_redis_nodes, BrokerHolder, Client, ProxyParams};
 use crate::framework::{Check, Meta, RunRecord, Tier, Violation};
@@ -222,6 +223,9 @@ impl Check for MigrationCheck {
                 "pttl_override": pttl_override,
                 // heavy-tailed latency: lets a message on one connection be overtaken by a whole
                 // exchange on others
+                // directed schedule fault: the next n RESTORE messages stay in flight up to x ms longer, and
+                // a racing client deletes their key through a random proxy the moment they are sent
+                "racer": if index % 3 == 1 { json!({"uses": rng.range(4, 40), "extra_ms_max": *rng.pick(&[30u64, 120, 400]), "jitter_ms": rng.below(4)}) } else { Value::Null },
                 "spike_pm": *rng.pick(&[0u64, 0, 20, 60, 150]),
                 "spike_factor_max": *rng.pick(&[8u64, 20, 40]),
             },
@@ -256,14 +260,14 @@ impl Check for MigrationCheck {
         Meta {
             level: "exploration",
             rule: if self.prop == "C03" {
-                "plan = cluster of 1-3 chunks scaled out or in by one chunk while 2-4 clients issue 80-220 string/counter/list operations (incl. DEL/LPOP/RPOP) on 16-48 keys through random proxies, following MOVED; real coordinator loops drive metadata and commit. Swarm: latency 1-15 ms with a heavy tail (0-15% of messages x4..x40, per connection FIFO), backend_conn_num 1-3, active redirection, scan_count 1-16, scan interval, migration_limit, compressed metadata, SCAN duplicates. Non-trivial = migration committed AND >=1 write and >=1 deleting command were acknowledged while a migration was in flight; distinct = distinct (delivery-schedule hash, end state hash)."
+                "plan = cluster of 1-3 chunks scaled out or in by one chunk while 2-4 clients issue 80-220 string/counter/list operations (incl. DEL/LPOP/RPOP) on 16-48 keys through random proxies, following MOVED; real coordinator loops drive metadata and commit. Every third run a racer: the next 4-40 RESTORE messages stay in flight up to 30-400 ms longer and a racing client deletes their key through a random proxy the moment they are sent; 4-24 read-then-delete pairs of two clients a few hops apart in every run. Swarm: latency 1-15 ms with a heavy tail (0-15% of messages x4..x40, per connection FIFO), backend_conn_num 1-3, active redirection, scan_count 1-16, scan interval, migration_limit, compressed metadata, SCAN duplicates. Non-trivial = migration committed AND >=1 write and >=1 deleting command were acknowledged while a migration was in flight; distinct = distinct (delivery-schedule hash, end state hash)."
             } else {
                 "same plan with a TTL key population (30 ms .. 1 h, 30 days and 5e9 ms i.e. beyond 2^31/2^32 ms, and persistent); every third run the source nodes answer PTTL with a buggified value {0,1,2,999,2^31,2^32+1,2^63-1,-1,-2,malformed}. Non-trivial = >=1 RESTORE of a key with a remaining TTL was matched with its PTTL reading."
             },
             real: vec!["broker::MemBrokerService", "coordinator::CoordinatorService loops (detect, proxy sync, migration sync)", "proxy::* (Session, SharedForwardHandler, MetaManager, blocking queue, backend senders, migration_backend)", "migration::* (scan_task, scan_migration, manager)", "replication::*", "common::proto encodings"],
             stubs: vec!["TCP (SimNet packet-level channels)", "Redis (SimRedis model)", "HTTP coordinator->broker hop (direct service calls with serde_json round trip)", "RedisClient implementations (SimRedisClient incl. timeout/stale behaviour)"],
             assumptions: vec!["SimRedis is a faithful model of the Redis commands used", "tokio current_thread runtime with paused clock; message-level interleavings only"],
-            fault_kinds: vec!["msg_delay_reorder", "latency_spike", "scan_duplicates", "pttl_buggify"],
+            fault_kinds: vec!["msg_delay_reorder", "latency_spike", "directed_delay_of_watched_message", "scan_duplicates", "pttl_buggify"],
         }
     }
 }
@@ -290,6 +294,84 @@ fn dbg(net: &Net, what: &str) {
     if std::env::var("VERIF_DEBUG").is_ok() {
         eprintln!("[dbg t={}ms seq={}] {}", net.now_ms(), net.inner.lock().seq, what);
     }
+}
+
+/// Post-mortem classification of a resurrected key. Returns a description when the Redis logs show
+/// this exact pattern on some node N served by proxy P:
+///   P's on-demand pull started (EXISTS answered 0 on N), P was then told new metadata, a DEL from P
+///   executed on N *without* P having sent the UMSYNC that the importing path sends first (so the
+///   importing task for the slot was already gone), and only afterwards the pull's RESTORE landed.
+fn late_pull_restore(net: &Net, n_proxies: usize, key: &[u8]) -> Option<String> {
+    let (conn_src, msgs) = {
+        let g = net.inner.lock();
+        (g.conn_src.clone(), g.proxy_msgs.clone())
+    };
+    for h in 0..n_proxies {
+        let paddr = proxy_addr(h, 0);
+        let own = format!("proxy:{}#", paddr);
+        for a in node_addrs(h, 0).iter() {
+            let entries: Vec<(u64, String, String, String)> = match net.redis(a) {
+                Some(r) => r
+                    .lock()
+                    .log
+                    .iter()
+                    .filter(|e| e.cmd.len() >= 2 && e.cmd[1] == key)
+                    .map(|e| (e.seq, conn_src.get(&e.conn).cloned().unwrap_or_default(), String::from_utf8_lossy(&e.cmd[0]).to_uppercase(), e.reply.clone()))
+                    .collect(),
+                None => continue,
+            };
+            for (rs, rsrc, rname, rreply) in entries.iter() {
+                if rname != "RESTORE" || !rreply.starts_with('+') || !rsrc.starts_with(&own) {
+                    continue;
+                }
+                // the delete that emptied the key before this RESTORE
+                let d = entries.iter().filter(|(s, _, n, rep)| s < rs && n == "DEL" && rep == ":1").max_by_key(|x| x.0);
+                let (ds, dsrc) = match d {
+                    Some((s, src, _, _)) => (*s, src.clone()),
+                    None => continue,
+                };
+                if !dsrc.starts_with(&own) {
+                    continue;
+                }
+                let writes_between = entries.iter().any(|(s, _, n, rep)| *s > ds && s < rs && matches!(n.as_str(), "SET" | "APPEND" | "LPUSH" | "RPUSH" | "INCR" | "SETNX" | "GETSET" | "RESTORE") && !rep.starts_with('-'));
+                if writes_between {
+                    continue;
+                }
+                // the pull this RESTORE belongs to started with an EXISTS answered 0
+                let e = entries.iter().filter(|(s, src, n, rep)| *s < ds && src.starts_with(&own) && n == "EXISTS" && rep == ":0").max_by_key(|x| x.0);
+                let es = match e {
+                    Some(x) => x.0,
+                    None => continue,
+                };
+                let umsync_sent = msgs.iter().any(|(s, src, _, n, arg)| *s > es && *s < ds && src.starts_with(&own) && n == "UMSYNC" && arg.as_slice() == key);
+                if umsync_sent {
+                    continue;
+                }
+                // new (strictly newer) metadata delivered to P in that window
+                let mut max_before = 0u64;
+                let mut new_meta = None;
+                for (s, _, dst, n, arg) in msgs.iter() {
+                    if dst != &paddr || n != "UMCTL SETCLUSTER" {
+                        continue;
+                    }
+                    let ep: u64 = String::from_utf8_lossy(arg).parse().unwrap_or(0);
+                    if *s > es && *s < ds && ep > max_before && new_meta.is_none() {
+                        new_meta = Some((*s, ep));
+                    }
+                    if *s < ds {
+                        max_before = max_before.max(ep);
+                    }
+                }
+                if let Some((ms, ep)) = new_meta {
+                    return Some(format!(
+                        "on {} (proxy {}): on-demand pull started at seq {} (EXISTS -> 0), metadata of epoch {} reached the proxy at seq {}, DEL executed directly at seq {} (no UMSYNC: the importing task was gone), the pull's RESTORE landed at seq {} and brought the deleted value back",
+                        a, paddr, es, ep, ms, ds, rs
+                    ));
+                }
+            }
+        }
+    }
+    None
 }
 
 async fn run_migration(prop: &'static str, plan: &Value, want_sample: bool) -> RunRecord {
@@ -474,6 +556,50 @@ async fn run_migration(prop: &'static str, plan: &Value, want_sample: bool) -> R
         }));
     }
 
+    // the racer: told about every watched RESTORE as it is sent, deletes that key at once
+    let racer = if cfg["racer"].is_object() {
+        let (tx, mut rx) = futures::channel::mpsc::unbounded::<Vec<u8>>();
+        net.add_watch(crate::simnet::Watch { cmd: "RESTORE".to_string(), uses_left: cfg["racer"]["uses"].as_u64().unwrap_or(8) as u32, extra_ms_max: cfg["racer"]["extra_ms_max"].as_u64().unwrap_or(100), notify: Some(tx) });
+        let jitter = cfg["racer"]["jitter_ms"].as_u64().unwrap_or(0);
+        let net = net.clone();
+        let keys = keys.clone();
+        let history = history.clone();
+        let probes = probes.clone();
+        let holder = holder.clone();
+        let n_ops = ops.len();
+        Some(tokio::spawn(async move {
+            let mut cl = Client::new(&net, 700);
+            let mut n = 0usize;
+            while let Some(kname) = rx.next().await {
+                let ki = match keys.iter().position(|k| k.name[..] == kname[..]) {
+                    Some(i) => i,
+                    None => continue,
+                };
+                let name = match keys[ki].class.as_str() {
+                    "lst" => ["DEL", "LPOP", "RPOP"][n % 3],
+                    _ => "DEL",
+                };
+                if jitter > 0 {
+                    tokio::time::sleep(Duration::from_millis(jitter)).await;
+                }
+                let members = cluster_members(&holder).await;
+                if members.is_empty() {
+                    continue;
+                }
+                let target = members[(crate::rng::mix64(n as u64 ^ 0x5ace) % members.len() as u64) as usize].clone();
+                let cmd = cmd_for(name, &keys[ki].name, b"");
+                let r = cl.call(&target, &cmd, max_hops).await;
+                let obs = classify(&r.reply, &mut probes.lock());
+                let ret = if obs == Obs::Unknown { u64::MAX } else { r.ret_seq };
+                history.lock().push((ki, HOp { id: base_id + n_ops + n, inv: r.inv_seq, ret, op: op_from(name, b""), obs, client: 700 }));
+                *probes.lock().entry("racer_deletes".to_string()).or_insert(0) += 1;
+                n += 1;
+            }
+        }))
+    } else {
+        None
+    };
+
     // wait: clients done and migration committed
     for t in tasks {
         let _ = t.await;
@@ -496,6 +622,10 @@ async fn run_migration(prop: &'static str, plan: &Value, want_sample: bool) -> R
     // quiescence: let the last metadata reach the proxies and the tasks stop
     tokio::time::sleep(Duration::from_millis(4000)).await;
     coord.crash();
+    if let Some(r) = racer {
+        r.abort();
+        let _ = r.await;
+    }
     rec.vtime_ms = net.now_ms();
 
     // ---- oracles
@@ -578,11 +708,11 @@ async fn run_migration(prop: &'static str, plan: &Value, want_sample: bool) -> R
             }
             if !res.ok {
                 let brief: Vec<String> = ops.iter().map(|o| format!("c{}[{}..{}]{:?}->{:?}", o.client, o.inv, if o.ret == u64::MAX { 0 } else { o.ret }, o.op, o.obs)).collect();
-                rec.violate(Violation::new(
-                    "C03",
-                    "not-linearizable",
-                    format!("key {} ({}): history is not linearizable against the sequential model (migration started at seq {}, committed at {}): {}", String::from_utf8_lossy(&k.name), k.class, started, committed_seq, brief.join("; ")),
-                ));
+                let detail = format!("key {} ({}): history is not linearizable against the sequential model (migration started at seq {}, committed at {}): {}", String::from_utf8_lossy(&k.name), k.class, started, committed_seq, brief.join("; "));
+                match late_pull_restore(&net, n_proxies, &k.name) {
+                    Some(why) => rec.violate(Violation::with_sig("C03", "not-linearizable", "resurrection:pull-restore-lands-after-the-importing-task-ended".to_string(), format!("{} || cause: {}", detail, why))),
+                    None => rec.violate(Violation::new("C03", "not-linearizable", detail)),
+                }
                 continue;
             }
             // final placement
@@ -595,11 +725,11 @@ async fn run_migration(prop: &'static str, plan: &Value, want_sample: bool) -> R
                     let elsewhere: Vec<&(String, KState, Option<u64>)> = hs.iter().filter(|(a, _, _)| Some(a) != owner.as_ref()).collect();
                     let actual = on_owner.first().map(|x| x.1.clone()).unwrap_or(KState::Absent);
                     if !res.finals.contains(&actual) {
-                        rec.violate(Violation::new(
-                            "C03",
-                            "final-value",
-                            format!("key {} slot {}: owner {:?} holds {:?} but the acknowledged history allows only {:?} (copies elsewhere: {:?})", String::from_utf8_lossy(&k.name), slot, owner, actual, res.finals, elsewhere),
-                        ));
+                        let detail = format!("key {} slot {}: owner {:?} holds {:?} but the acknowledged history allows only {:?} (copies elsewhere: {:?})", String::from_utf8_lossy(&k.name), slot, owner, actual, res.finals, elsewhere);
+                        match late_pull_restore(&net, n_proxies, &k.name) {
+                            Some(why) => rec.violate(Violation::with_sig("C03", "final-value", "resurrection:pull-restore-lands-after-the-importing-task-ended".to_string(), format!("{} || cause: {}", detail, why))),
+                            None => rec.violate(Violation::new("C03", "final-value", detail)),
+                        }
                     }
                     if !elsewhere.is_empty() {
                         rec.violate(Violation::new(
